@@ -11,7 +11,7 @@ func init() {
 			"expected value = result of encoding/json's own round trip (fixes the JSON-inherent collapses without a hand-written exception list); cases where the reference round trip fails are counted and skipped",
 		}, commonAssume...),
 		Jobs: func(tier string) []runner.Job {
-			return []runner.Job{{Harness: "c04.types", Mode: "plain", Shards: 16}}
+			return []runner.Job{{Harness: "c04.types", Mode: "plain", Shards: 16}, {Harness: "c04.stream", Mode: "plain", Shards: 16, GC: "on"}}
 		},
 	})
 }
